@@ -1574,4 +1574,42 @@ theorem compl_tp_lists (rho : Mat α) (ops : List (Mat α)) (d : Nat) (hr : rho.
 
 end compl2
 
+section specmodel
+variable {α : Type} [CommRing α] [StarRing α]
+
+/-- the model outputs on a pure input, in Mathlib's vocabulary -/
+theorem compl_pure_toM (ops : List (Mat α)) (d : Nat) (hs : Shaped ops d d) (psi : Nat → α) (rho : Mat α)
+    (hr : rho.r = d) (hc : rho.c = d) (hrho : ∀ a b, rho.e a b = psi a * star (psi b)) :
+    toM d d (applyKrausLists rho ops ops).e
+        = ∑ i : Fin ops.length, toM d d (fam ops i) * Matrix.vecMulVec (fun a : Fin d => psi a) (star fun a : Fin d => psi a)
+            * (toM d d (fam ops i)).conjTranspose ∧
+    toM ops.length ops.length (applyKrausLists rho (complList ops d) (complList ops d)).e
+        = Matrix.of fun i j : Fin ops.length => Matrix.trace (toM d d (fam ops i)
+            * Matrix.vecMulVec (fun a : Fin d => psi a) (star fun a : Fin d => psi a) * (toM d d (fam ops j)).conjTranspose) := by
+  obtain ⟨r0, c0, e0⟩ := rho
+  simp only at hr hc hrho
+  subst hr; subst hc
+  have hv : toM c0 c0 e0 = Matrix.vecMulVec (fun a : Fin c0 => psi a) (star fun a : Fin c0 => psi a) := by
+    ext a b; simp [toM, hrho, Matrix.vecMulVec_apply]
+  constructor
+  · have := toM_applyKrausLists ⟨c0, c0, e0⟩ ops ops c0 c0 hs hs rfl
+    rw [this, hv]
+  · ext i j
+    simp only [toM, Matrix.of_apply]
+    rw [compl_entry_lists ⟨c0, c0, e0⟩ ops c0 rfl rfl i j, tr_eq_trace, toM_applySpec, hv]
+    simp
+
+/-- **same non-zero spectrum on pure inputs, for the model outputs** -/
+theorem compl_spectrum_model (ops : List (Mat α)) (d : Nat) (hs : Shaped ops d d) (psi : Nat → α) (rho : Mat α)
+    (hr : rho.r = d) (hc : rho.c = d) (hrho : ∀ a b, rho.e a b = psi a * star (psi b)) :
+    Polynomial.X ^ ops.length * (toM d d (applyKrausLists rho ops ops).e).charpoly
+      = Polynomial.X ^ d *
+        (toM ops.length ops.length (applyKrausLists rho (complList ops d) (complList ops d)).e).charpoly := by
+  obtain ⟨h1, h2⟩ := compl_pure_toM ops d hs psi rho hr hc hrho
+  rw [h1, h2]
+  have := compl_spectrum_matrix (fun i : Fin ops.length => toM d d (fam ops i)) (fun a : Fin d => psi a)
+  simpa using this
+
+end specmodel
+
 end Toq.ChannelOps
